@@ -182,102 +182,13 @@ var c07dec = gen.Register(&gen.Check[caseC07dec]{
 	},
 	Required: []string{"accepted", "reject:empty", "reject:length", "reject:range", "reject:hex", "near-n"},
 	Run: func(c caseC07dec, o *gen.Obs) error {
-		hostileCaller()
-		data := gen.HexBytes(c.Data)
-		if c.Nil {
-			data = nil
+		// every case is evaluated twice in a row: the verdict on an input must not depend on the input having been
+		// presented just before (decoders that remember their last input)
+		if err := c07decOnce(c, o); err != nil {
+			return err
 		}
-		s := c.Prior.Build()
-		var (
-			err      error
-			hexValid = true
-		)
-		switch c.Via {
-		case "decode":
-			err = s.Decode(data)
-		case "unmarshal":
-			err = s.UnmarshalBinary(data)
-		case "hex":
-			hexValid = isHex(c.Text)
-			if hexValid {
-				data, _ = hex.DecodeString(c.Text)
-			}
-			err = s.DecodeHex(c.Text)
-		default:
-			panic("via")
-		}
-		v := ref.OS2IP(data)
-		class := "accepted"
-		switch {
-		case !hexValid:
-			class = "reject:hex"
-		case len(data) == 0:
-			class = "reject:empty"
-		case len(data) != 32:
-			class = "reject:length"
-		case v.Cmp(ref.N) >= 0:
-			class = "reject:range"
-		}
-		o.Class(class)
-		o.Class("via:" + c.Via)
-		near := false
-		if len(data) == 32 {
-			d := new(big.Int).Sub(v, ref.N)
-			near = d.Abs(d).BitLen() <= 128
-			ln, lv := gen.ToLimbs(ref.N), gen.ToLimbs(v)
-			diff := 0
-			for i := range ln {
-				if ln[i] != lv[i] {
-					diff++
-				}
-			}
-			near = near || diff == 1
-		}
-		o.ClassIf(near, "near-n")
-		o.NonTrivialIf(near || (len(data) != 32 && len(data) != 0) || !hexValid)
-		if class != "accepted" {
-			if err == nil {
-				return gen.Fail("Decode/accepts-invalid", "%s of %q (%s) accepted", c.Via, c.Data+c.Text, class)
-			}
-			if class != "reject:hex" && !(c.Via == "hex" && c.Text != strings.ToLower(c.Text)) {
-				if e := errorClassDistinct(class, err.Error()); e != nil {
-					return e
-				}
-			}
-			// Not demanded: the receiver's value after a rejected scalar decode (DESIGN.md section 2).
-			return nil
-		}
-		if err != nil {
-			if c.Via == "hex" && c.Text != strings.ToLower(c.Text) {
-				o.Class("hex-uppercase-rejected")
-				return nil // whether upper-case hex digits are accepted is not part of the statement
-			}
-			return gen.Fail("Decode/rejects-valid", "%s of %x rejected: %v", c.Via, data, err)
-		}
-		if e := checkScalar("Decode", s, v); e != nil {
-			return e
-		}
-		if !bytes.Equal(s.Encode(), data) {
-			return gen.Fail("Decode/encode-roundtrip", "Encode(Decode(b)) != b for b=%x", data)
-		}
-		if s.Hex() != hex.EncodeToString(data) {
-			return gen.Fail("Hex", "Hex() = %s for %x", s.Hex(), data)
-		}
-		if mb, e := s.MarshalBinary(); e != nil || !bytes.Equal(mb, data) {
-			return gen.Fail("MarshalBinary", "MarshalBinary() = %x, %v", mb, e)
-		}
-		// The stored value is the integer: rebuild it from its four 64-bit words with the package's own
-		// SetUInt64/Multiply/Add (guards against a mutually inverse but wrong encode/decode pair).
-		l := gen.ToLimbs(v)
-		two64 := secp256k1.NewScalar().SetUInt64(1 << 32)
-		two64.Multiply(two64)
-		acc := secp256k1.NewScalar()
-		for i := 3; i >= 0; i-- {
-			acc.Multiply(two64)
-			acc.Add(secp256k1.NewScalar().SetUInt64(l[i]))
-		}
-		if acc.Equal(s) != 1 {
-			return gen.Fail("Decode/horner", "decoded %x differs from its Horner reconstruction %x", data, acc.Encode())
+		if err := c07decOnce(c, &gen.Obs{}); err != nil {
+			return gen.Fail("repeat/"+errClass(err), "second presentation of the same input: %v", err)
 		}
 		return nil
 	},
@@ -345,3 +256,104 @@ var c07enc = gen.Register(&gen.Check[caseC07enc]{
 })
 
 func TestC07Encode(t *testing.T) { c07enc.Execute(t) }
+
+func c07decOnce(c caseC07dec, o *gen.Obs) error {
+	hostileCaller()
+	data := gen.HexBytes(c.Data)
+	if c.Nil {
+		data = nil
+	}
+	s := c.Prior.Build()
+	var (
+		err      error
+		hexValid = true
+	)
+	switch c.Via {
+	case "decode":
+		err = s.Decode(data)
+	case "unmarshal":
+		err = s.UnmarshalBinary(data)
+	case "hex":
+		hexValid = isHex(c.Text)
+		if hexValid {
+			data, _ = hex.DecodeString(c.Text)
+		}
+		err = s.DecodeHex(c.Text)
+	default:
+		panic("via")
+	}
+	v := ref.OS2IP(data)
+	class := "accepted"
+	switch {
+	case !hexValid:
+		class = "reject:hex"
+	case len(data) == 0:
+		class = "reject:empty"
+	case len(data) != 32:
+		class = "reject:length"
+	case v.Cmp(ref.N) >= 0:
+		class = "reject:range"
+	}
+	o.Class(class)
+	o.Class("via:" + c.Via)
+	near := false
+	if len(data) == 32 {
+		d := new(big.Int).Sub(v, ref.N)
+		near = d.Abs(d).BitLen() <= 128
+		ln, lv := gen.ToLimbs(ref.N), gen.ToLimbs(v)
+		diff := 0
+		for i := range ln {
+			if ln[i] != lv[i] {
+				diff++
+			}
+		}
+		near = near || diff == 1
+	}
+	o.ClassIf(near, "near-n")
+	o.NonTrivialIf(near || (len(data) != 32 && len(data) != 0) || !hexValid)
+	if class != "accepted" {
+		if err == nil {
+			return gen.Fail("Decode/accepts-invalid", "%s of %q (%s) accepted", c.Via, c.Data+c.Text, class)
+		}
+		if class != "reject:hex" && !(c.Via == "hex" && c.Text != strings.ToLower(c.Text)) {
+			if e := errorClassDistinct(class, err.Error()); e != nil {
+				return e
+			}
+		}
+		// Not demanded: the receiver's value after a rejected scalar decode (DESIGN.md section 2).
+		return nil
+	}
+	if err != nil {
+		if c.Via == "hex" && c.Text != strings.ToLower(c.Text) {
+			o.Class("hex-uppercase-rejected")
+			return nil // whether upper-case hex digits are accepted is not part of the statement
+		}
+		return gen.Fail("Decode/rejects-valid", "%s of %x rejected: %v", c.Via, data, err)
+	}
+	if e := checkScalar("Decode", s, v); e != nil {
+		return e
+	}
+	if !bytes.Equal(s.Encode(), data) {
+		return gen.Fail("Decode/encode-roundtrip", "Encode(Decode(b)) != b for b=%x", data)
+	}
+	if s.Hex() != hex.EncodeToString(data) {
+		return gen.Fail("Hex", "Hex() = %s for %x", s.Hex(), data)
+	}
+	if mb, e := s.MarshalBinary(); e != nil || !bytes.Equal(mb, data) {
+		return gen.Fail("MarshalBinary", "MarshalBinary() = %x, %v", mb, e)
+	}
+	// The stored value is the integer: rebuild it from its four 64-bit words with the package's own
+	// SetUInt64/Multiply/Add (guards against a mutually inverse but wrong encode/decode pair).
+	l := gen.ToLimbs(v)
+	two64 := secp256k1.NewScalar().SetUInt64(1 << 32)
+	two64.Multiply(two64)
+	acc := secp256k1.NewScalar()
+	for i := 3; i >= 0; i-- {
+		acc.Multiply(two64)
+		acc.Add(secp256k1.NewScalar().SetUInt64(l[i]))
+	}
+	if acc.Equal(s) != 1 {
+		return gen.Fail("Decode/horner", "decoded %x differs from its Horner reconstruction %x", data, acc.Encode())
+	}
+	return nil
+}
